@@ -235,9 +235,9 @@ func (w *wld) canon() string {
 	return sb.String()
 }
 
-// joinerIDs: the raft ids of the nodes that join, in order. Not all single decimal digits: 26 = 0x1a and 11 = 0xb read
-// differently in another base, 26 > 16 orders differently as text.
-var joinerIDs = []uint64{2, 26, 11}
+// joinerIDs: the raft ids of the nodes that join, in order. Not all single decimal digits: 0x800000000000001a has the
+// top bit set (does not fit a signed integer) and reads differently in another base, as does 26 = 0x1a.
+var joinerIDs = []uint64{2, 0x800000000000001a, 26}
 
 var limits struct{ joins, removes, snapshots, restarts, maxNode int }
 
